@@ -896,6 +896,36 @@ class SetV:
         c = CTX.c
         return SetV(self.arity, {t: c.and2(g, -other.cell(t)) for t, g in self.cells.items()}, self.U)
 
+    def mapped(self, maps):
+        """PrefixTreeN::mapped (contract decided by the C08 check on the real code): column i is sent through maps[i]
+        (an Option<PrefixTree2> read as a partial function: x -> the least y with (x, y) in it; None = identity);
+        tuples with an undefined component are dropped"""
+        import itertools
+        c = CTX.c
+        U = self.U
+        if len(maps) != self.arity:
+            raise Unsupported("mapped with %d maps on a PrefixTree%d" % (len(maps), self.arity))
+        img = []
+        for mp in maps:
+            d = {}
+            for x in range(U):
+                for y in range(U):
+                    if mp is None or mp.some == F:
+                        d[(x, y)] = T if x == y else F
+                        continue
+                    first = c.and2(mp.val.cell((x, y)), c.andl([-mp.val.cell((x, y2)) for y2 in range(y)]))
+                    d[(x, y)] = first if mp.some == T else c.or2(c.and2(mp.some, first), c.and2(-mp.some, T if x == y else F))
+            img.append(d)
+        cells = {}
+        for t, g in self.cells.items():
+            if g == F:
+                continue
+            for t2 in itertools.product(range(U), repeat=self.arity):
+                m = c.and2(g, c.andl([img[i][(t[i], t2[i])] for i in range(self.arity)]))
+                if m != F:
+                    cells[t2] = c.or2(cells.get(t2, F), m)
+        return SetV(self.arity, cells, U)
+
     def insert_restriction(self, g, k, r):
         self._mut()
         c = CTX.c
